@@ -1,4 +1,4 @@
-SPECIFICATION Spec
+SPECIFICATION SpecR
 CONSTANTS
   QBits = 6
   WrapBits = 20
@@ -26,7 +26,5 @@ INVARIANT TypeOK
 INVARIANT LiqSum
 INVARIANT TickSums
 INVARIANT Solvent
-PROPERTY SwapBoundsProp
-PROPERTY StepsOKProp
-PROPERTY SplitExactProp
+PROPERTY RerangeKeepsOwedProp
 PROPERTY OwnerSignedProp
